@@ -129,6 +129,34 @@ Definition mc_get_connection (c : ctl) (x y : value) : option Z :=
   | _, _, _ => Some 0
   end.
 
+(* MachineController.discover_connections() as a step on the controller's state.  The machine as it is NOW:
+   its dimensions (from the P2P table), the chip that answers for (255, 255), and for each of its Ethernet
+   chips (in the order spinn5_eth_coords yields them) whether a connection to it can be made and kept --
+   the chip is alive, reports an IP address with its Ethernet up, and the probe over the new connection is
+   answered -- and the connection object that would be made.
+   The step: dimensions := those of the machine now (no memory of earlier ones); the root chip is asked for
+   only if not yet known; connections already held are retained and not re-made; a new one is added for each
+   Ethernet chip that has none and whose connection can be kept. *)
+Record dmachine : Type := MkDMachine {
+  dm_w : Z; dm_h : Z; dm_root : chip;
+  dm_eth : list (chip * (bool * Z))        (* Ethernet chip -> (connection kept?, connection) *)
+}.
+
+Definition discover_add (conns : list (chip * Z)) (e : chip * (bool * Z)) : list (chip * Z) :=
+  match e with
+  | (xy, (ok, k)) =>
+      match cassoc xy conns with
+      | Some _ => conns                            (* (x, y) in self.connections: skipped *)
+      | None => if ok then conns ++ [(xy, k)] else conns
+      end
+  end.
+
+Definition discover_step (m : dmachine) (c : ctl) : ctl :=
+  MkCtl (Some (dm_w m)) (Some (dm_h m))
+        (match c_root c with Some r => Some r | None => Some (dm_root m) end)
+        (fold_left discover_add (dm_eth m) (c_conns c))
+        (c_bmp c).
+
 Fixpoint zlist_eqb (a b : list Z) : bool :=
   match a, b with
   | [], [] => true
@@ -669,6 +697,9 @@ Definition flat_wire (w : wire) :=
   (w_conn w, w_kind w, flat_value (w_x w), flat_value (w_y w), flat_value (w_p w), flat_value (w_cmd w),
    map (fun d => match d with (i, sh, m, v) => (Z.of_nat i, sh, m, v) end) (w_disc w),
    map (fun f => match f with (k, i, sh, v) => (flat_fkind k, Z.of_nat i, sh, flat_value v) end) (w_fields w)).
+Definition flat_ctl (c : ctl) :=
+  (match c_width c with Some w => w | None => -1 end, match c_height c with Some h => h | None => -1 end,
+   match c_root c with Some r => [r] | None => [] end, c_conns c).
 Definition flat_outcome (o : outcome) := (map flat_wire (fst o), flat_err (snd o)).
 Definition flat_event (e : event) :=
   match e with
